@@ -32,6 +32,12 @@ def scanTokens : List Bytes → List Bytes × Bool
     if seg.length > maxLine then ([], true)
     else let (ts, tl) := scanTokens rest; (dropCR seg :: ts, tl)
 
+/-- the input seen so far ends inside a line (non-empty, last byte not a newline) -/
+def endsUnterminated (bs : Bytes) : Bool :=
+  match bs.getLast? with
+  | some b => b != 10
+  | none => false
+
 inductive StreamResult where
   | ok | tooLong | readErr | writeErr
   deriving DecidableEq, Repr, Inhabited
@@ -56,7 +62,10 @@ def runStream (f : Bytes → Option Bytes) (bs : Bytes) (readFailAt writeFailAt 
   let (seen, rerr) : Bytes × Bool := match readFailAt with
     | some k => if k ≤ bs.length then (bs.take k, true) else (bs, false)
     | none => (bs, false)
-  let (toks, tooLong) := scanTokens (splitNL seen)
+  let (toks0, tooLong) := scanTokens (splitNL seen)
+  -- after a read error the remainder behind the last newline may be a line that was cut short:
+  -- it is set aside and never processed (the `fix:` of the cut-line defect)
+  let toks := if rerr && !tooLong && endsUnterminated seen then toks0.dropLast else toks0
   let (out, wfailed) := emitAll f writeFailAt toks 0
   if wfailed then (out, .writeErr)
   else if tooLong then (out, .tooLong)
